@@ -114,14 +114,14 @@ def divAlign (B p : Nat) (b q r e : Int) : Int × Int × Int :=
   if q = 0 then
     let rdigits := digitsI B r
     let shift := ddigits + p - rdigits
-    let r' := r * ((B ^ shift : Nat) : Int)
+    let r' := shlDigits B r shift
     (Int.tdiv r' b, Int.tmod r' b, e - shift)
   else
     let ndigits := digitsI B q + ddigits
     if ndigits < ddigits + p then
       let shift := ddigits + p - ndigits
-      let q' := q * ((B ^ shift : Nat) : Int)
-      let r' := r * ((B ^ shift : Nat) : Int)
+      let q' := shlDigits B q shift
+      let r' := shlDigits B r shift
       (q' + Int.tdiv r' b, Int.tmod r' b, e - shift)
     else (q, r, e)
 
@@ -168,18 +168,28 @@ def sqrtScale (B p : Nat) (x : FRepr) : Int × Int × Nat × Int :=
   let digits : Int := x.digits B
   let shift : Int := (p : Int) * 2 - digits - ((x.exp - digits) % 2)
   let e := Int.tdiv (x.exp - shift) 2
-  if shift > 0 then (x.signif * ((B ^ shift.toNat : Nat) : Int), 0, 0, e)
+  if shift > 0 then (shlDigits B x.signif shift.toNat, 0, 0, e)
   else
     let s := (-shift).toNat
     let hl := splitDigits B x.signif s
     (hl.1, hl.2, s, e)
 
-/-- the rounding step of `Context::sqrt`: integer square root with remainder (`UBig::sqrt_rem`), `Exact`
-    only if the remainder and the discarded low digits are zero, otherwise the mode table with the
-    half test `rem.cmp(root).then(4·low .cmp(B^low_digits))` (i.e. `√(signif + low/B^k)` vs `root + ½`). -/
-def sqrtRound (B : Nat) (m : Mode) (signif low : Int) (lowDigits : Nat) : Rounded Int :=
-  let root : Int := (Nat.sqrt signif.natAbs : Nat)
-  let rem : Int := signif.natAbs - root * root
+/-- the contract of `UBig::sqrt_rem` (property C12, `Props/C12.lean` `sqrt_rem_spec`): floor square root
+    and `value − root²` -/
+def SqrtRemOk (sr : Nat → Nat × Nat) : Prop :=
+  ∀ n, (sr n).1 * (sr n).1 ≤ n ∧ n < ((sr n).1 + 1) * ((sr n).1 + 1) ∧ (sr n).1 * (sr n).1 + (sr n).2 = n
+
+/-- the instance the driver runs: core `Nat.sqrt` -/
+def natSqrtRem (n : Nat) : Nat × Nat := (Nat.sqrt n, n - Nat.sqrt n * Nat.sqrt n)
+
+/-- the rounding step of `Context::sqrt`: `(root, rem) = signif.unsigned_abs().sqrt_rem()` (the integer
+    kernel `sr`, any function meeting `SqrtRemOk`), `Exact` only if the remainder and the discarded low
+    digits are zero, otherwise the mode table with the half test
+    `rem.cmp(root).then(4·low .cmp(B^low_digits))` (i.e. `√(signif + low/B^k)` vs `root + ½`). -/
+def sqrtRound (B : Nat) (m : Mode) (sr : Nat → Nat × Nat) (signif low : Int) (lowDigits : Nat) : Rounded Int :=
+  let sq := sr signif.natAbs
+  let root : Int := (sq.1 : Nat)
+  let rem : Int := (sq.2 : Nat)
   if rem = 0 ∧ low = 0 then (root, none)
   else
     let test := (compare rem root).then (compare (low * 4) ((B ^ lowDigits : Nat) : Int))
@@ -187,13 +197,13 @@ def sqrtRound (B : Nat) (m : Mode) (signif low : Int) (lowDigits : Nat) : Rounde
     (root + rInt adj, some adj)
 
 /-- `Context::sqrt` (as repaired by 92fc29e) -/
-def ctxSqrt (B : Nat) (m : Mode) (c : Coarse) (p : Nat) (x : FRepr) :
+def ctxSqrt (B : Nat) (m : Mode) (c : Coarse) (sr : Nat → Nat × Nat) (p : Nat) (x : FRepr) :
     Except FPanic (Rounded FRepr) :=
   if p = 0 then .error .unlimitedPrecision
   else if x.signif < 0 then .error .rootNegative
   else
     let sc := sqrtScale B p x
-    let res := sqrtRound B m sc.1 sc.2.1 sc.2.2.1
+    let res := sqrtRound B m sr sc.1 sc.2.1 sc.2.2.1
     let v := FRepr.new B res.1 sc.2.2.2
     let rr := reprRound B m c p v
     .ok (rr.1, andThenFlag res.2 rr.2)
@@ -214,12 +224,12 @@ def reprRoundSum (B : Nat) (m : Mode) (c : Coarse) (p : Nat)
       else if d > rndP then
         let shift := d - rndP
         let hl := splitDigits B signif shift
-        (hl.1, exp + shift, (low.1 + hl.2 * ((B ^ low.2 : Nat) : Int), low.2 + shift))
+        (hl.1, exp + shift, (low.1 + shlDigits B hl.2 low.2, low.2 + shift))
       else
         if low.1 ≠ 0 then
           let shift := min low.2 (rndP - d)
           let pl := splitDigits B low.1 (low.2 - shift)
-          (signif * ((B ^ shift : Nat) : Int) + pl.1, exp - shift, (pl.2, low.2 - shift))
+          (shlDigits B signif shift + pl.1, exp - shift, (pl.2, low.2 - shift))
         else (signif, exp, low)
     if low.1 = 0 then (FRepr.new B signif exp, none)
     else
@@ -250,10 +260,10 @@ def reprAddLargeSmall (B : Nat) (m : Mode) (c : Coarse) (dub : Int → Nat) (p :
     let lshift := p - ldigits
     let rshift := ediff - lshift
     let hl := splitDigits B rhs.signif rshift
-    reprRoundSum B m c p (lhs.signif * ((B ^ lshift : Nat) : Int) + rs * hl.1) (lhs.exp - lshift)
+    reprRoundSum B m c p (shlDigits B lhs.signif lshift + rs * hl.1) (lhs.exp - lshift)
       (rs * hl.2, rshift) isSub
   else
-    reprRoundSum B m c p (lhs.signif * ((B ^ ediff : Nat) : Int) + rs * rhs.signif) rhs.exp (0, 0) isSub
+    reprRoundSum B m c p (shlDigits B lhs.signif ediff + rs * rhs.signif) rhs.exp (0, 0) isSub
 
 /-- `Context::add` (`rs = 1`) / `Context::sub` (`rs = -1`); `sub` with a zero `lhs` rounds the negated
     operand. -/
